@@ -8,6 +8,7 @@ import (
 	"reflect"
 	"strings"
 	"time"
+	"unicode"
 
 	"pgregory.net/rapid"
 )
@@ -201,7 +202,38 @@ var fieldNames = []string{"A", "B", "C", "D", "Ab", "AB", "X1", "Foo", "Bar_", "
 var wideNames = []string{"F00", "F01", "F02", "F03", "F04", "F05", "F06", "F07", "F08", "F09", "F10", "F11", "F12", "F13", "F14", "F15", "F16", "F17", "F18", "F19",
 	"Alpha", "Beta", "Gamma", "Delta", "Epsilon", "Zeta", "Eta", "Theta", "Iota", "Kappa", "Lambda", "Mu", "A", "B", "Ab", "AB"}
 var unexpNames = []string{"a", "b", "x", "foo"}
-var tagNames = []string{"a", "b", "A", "x", "foo", "a<b", "é", "name", "x-y", "_", "1", "Ab", "ab", "a b", "-"}
+
+// ValidTagName is encoding/json's isValidTag: a tag name made of letters, digits and the listed punctuation.
+func ValidTagName(s string) bool {
+	if s == "" {
+		return false
+	}
+	for _, c := range s {
+		switch {
+		case strings.ContainsRune("!#$%&()*+-./:;<=>?@[]^_{|}~ ", c):
+		case !unicode.IsLetter(c) && !unicode.IsDigit(c):
+			return false
+		}
+	}
+	return true
+}
+
+// TagName splits a tag into the name encoding/json uses ("" = none or invalid: the Go name applies) and its options.
+func TagName(tag string) (name, opts string) {
+	name = tag
+	if i := strings.IndexByte(tag, ','); i >= 0 {
+		name, opts = tag[:i], tag[i:]
+	}
+	if !ValidTagName(name) {
+		name = ""
+	}
+	return
+}
+
+var tagNames = []string{"a", "b", "A", "x", "foo", "a<b", "é", "name", "x-y", "_", "1", "Ab", "ab", "a b", "-",
+	// every punctuation character encoding/json allows in a name, and some it does not (then the Go name is used)
+	"a;b", "a:b", "p.q", "a/b", "x!", "(y)", "[z]", "k=v", "a@b", "q?", "a~b", "h#", "$d", "%p", "s*", "t+", "u^", "{w}", "v|w", "a&b", "g>h",
+	"a\\b", "a'b", "a`b"}
 
 func (c TypeCfg) prims() []string {
 	if len(c.Prims) > 0 {
